@@ -32,6 +32,7 @@ import (
 	"github.com/internetarchive/Zeno/internal/pkg/preprocessor/seencheck"
 	"github.com/internetarchive/Zeno/internal/pkg/reactor"
 	"github.com/internetarchive/Zeno/internal/pkg/source/lq"
+	"github.com/internetarchive/Zeno/internal/pkg/stats"
 	"github.com/internetarchive/gocrawlhq"
 	_ "github.com/ncruces/go-sqlite3/driver"
 	_ "github.com/ncruces/go-sqlite3/embed"
@@ -790,6 +791,10 @@ func runE2E(in map[string]any) string {
 		}
 		time.Sleep(time.Duration(num(stop, "extraMs", 50)) * time.Millisecond)
 	}
+	gauges := func() map[string]uint64 {
+		return map[string]uint64{"pre": stats.PreprocessorRoutinesGet(), "arch": stats.ArchiverRoutinesGet(), "post": stats.PostprocessorRoutinesGet(), "fin": stats.FinisherRoutinesGet()}
+	}
+	report["gaugesBeforeStop"] = gauges()
 	report["paused"] = paused
 	close(spoolDone)
 	report["maxSpooledBodyFiles"] = maxSpooled
@@ -870,6 +875,7 @@ func runE2E(in map[string]any) string {
 	}
 	o.mu.Unlock()
 	report["requestsAfterStop"] = late
+	report["gaugesAfterStop"] = gauges()
 	report["footprintAfterStop"] = map[string]any{"goroutines": runtime.NumGoroutine(), "fds": countFDs(), "g0": g0}
 	o.mu.Lock()
 	report["requests"] = o.log
